@@ -248,7 +248,9 @@ func (b *rNode) valid() bool {
 		if curr < prev {
 			return false
 		} else if curr != prev {
-			if tTag := b[(8*i)+7]; tTag == 0xFD {
+			// The element with the non-empty DRange [prev, curr) is the
+			// (i-1)'th one, so look at TTag[i-1], which is at b[(8*(i-1))+7].
+			if tTag := b[(8*i)-1]; tTag == 0xFD {
 				return false
 			}
 		}
